@@ -90,16 +90,16 @@ def run(args, seed, t_start):
         q = '%s#q%d' % (o.name, i)
         qmap[q] = o
         by_name.setdefault(o.name, []).append(q)
-        tasks.append((q, solve.build_query(o.pc, o.claim), timeout_ms))
+        tasks.append((q, o.smt2, timeout_ms))
     lemma_names = {}
-    for (name, pc, claim, doc) in lemmas:
+    for (name, smt2, doc) in lemmas:
         q = 'lemma/%s' % name
         lemma_names[q] = doc
         by_name.setdefault(q, []).append(q)
-        tasks.append((q, solve.build_query(pc, claim), timeout_ms))
+        tasks.append((q, smt2, timeout_ms))
     cover_tasks = []
-    for i, (name, pc) in enumerate(r.covers):
-        cover_tasks.append(('cover#%d#%s' % (i, name), solve.build_sat_query(pc), 5000))
+    for i, (name, smt2) in enumerate(r.covers):
+        cover_tasks.append(('cover#%d#%s' % (i, name), smt2, 5000))
     t_solve = time.time()
     res = solve.solve_all(tasks, jobs=args.jobs, both=(tier == 'thorough'))
     cres = solve.solve_all(cover_tasks, jobs=args.jobs)
@@ -226,13 +226,11 @@ def run(args, seed, t_start):
 
 
 def trusted_base(r):
-    used = set()
-    for w in r.worlds.values():
-        used |= w.used_axioms
+    used = set(r.used_axioms)
     out = ['pyvc encoding of the Python subset (DESIGN.md 2.2), z3 5.1 / cvc5 1.0.3']
     for a in sorted(used):
         out.append('library axiom %s: %s' % (a, LIB_AXIOMS.get(a, '(see pyvc/world.py)')))
-    for a in sorted(SF.USED_AXIOMS):
+    for a in sorted(r.sf_axioms):
         out.append('spec-function axiom instances: ' + a)
     trusted = []
     for c in dsl.CONTRACTS.values():
